@@ -718,15 +718,36 @@ def parse_tables(text):
 ALIASES = {'alpha': 'alpha_', 'alpha_': 'alpha'}  # the one documented rename (version.alpha <-> a_version.alpha_)
 
 
+def parse_build_rs(path):
+    """What does build.rs tell the C compiler about the real width, with and without the `float` feature?
+    Returns dict(cc={False: size, True: size}, cmake={False: size, True: size}) from the `make.define("A_SIZE_REAL", "N")` /
+    `cmake.define("LIBA_REAL", "N")` statements and the #[cfg(feature = "float")] attribute in front of them; None if there is no
+    build.rs next to src/ (scratch copies made before this was added)."""
+    if not os.path.exists(path):
+        return None
+    src = strip_comments(open(path).read())
+    out = dict(cc={False: 8, True: 8}, cmake={False: 8, True: 8})
+    for kind, obj, name in (('cc', 'make', 'A_SIZE_REAL'), ('cmake', 'cmake', 'LIBA_REAL')):
+        for m in re.finditer(r'((?:#\[cfg\([^\]]*\)\]\s*)*)%s\.define\(\s*"%s"\s*,\s*(?:Some\()?"(\d+)"\)?\s*\)' % (obj, name), src):
+            attrs, val = m.group(1), int(m.group(2))
+            if 'feature = "float"' in attrs and 'not(' not in attrs:
+                out[kind][True] = val
+            elif 'not(feature = "float")' in attrs:
+                out[kind][False] = val
+            elif not attrs.strip():
+                out[kind][False] = out[kind][True] = val
+    return out
+
+
 NHIST = dict(quick=300, thorough=4000)  # histories per struct and real width
 
 
-def one_width(real, tag, outdir, ctx, viols, stats, samples, tier='quick', seed=1):
+def one_width(real, tag, outdir, ctx, viols, stats, samples, tier='quick', seed=1, creal=None):
     REPO, VERIF = ctx['REPO'], ctx['VERIF']
     Inc = ctx['Inconclusive']
     wdir = os.path.join(outdir, tag)
     os.makedirs(wdir, exist_ok=True)
-    cfg = dict(name='abi-' + tag, real=real, have=ALL_HAVE)
+    cfg = dict(name='abi-' + tag, real=creal or real, have=ALL_HAVE)  # creal: the width build.rs selects for this feature set
     libdir, cfgh = ctx['build_lib']('san', cfg)
     text = open(os.path.join(REPO, 'src', 'lib.rs')).read()
     structs, fns, statics = parse_librs(text)
@@ -1004,9 +1025,23 @@ def run(prop, tier, seed, outdir, replay, ctx):
                  uncovered_wrappers=set(), unexercised_wrappers=set())
     widths = [(8, 'f64'), (4, 'f32')]  # both real widths in both tiers: an f32-only layout change must not wait for thorough
     inconclusive = []
+    # the C side of each width is compiled the way build.rs compiles it for that feature set: if build.rs stops passing
+    # A_SIZE_REAL=4 for the `float` feature (or passes it unconditionally), the Rust mirrors of that width meet a C library of the
+    # other width and the layout / declaration / transfer clauses report it
+    brs = parse_build_rs(os.path.join(ctx['REPO'], 'build.rs'))
+    stats['build_rs'] = brs
     try:
         for real, tag in widths:
-            one_width(real, tag, outdir, ctx, viols, stats, samples, tier, seed)
+            creal = real
+            if brs is not None:
+                creal = brs['cc'][real == 4]
+                if creal not in (4, 8, 16):
+                    viols.append(dict(key='abi/build.rs/real-size-not-a-supported-width', config=tag, msg='build.rs defines A_SIZE_REAL=%s for %s' % (creal, tag)))
+                    creal = real
+                if brs['cmake'][real == 4] != real:
+                    viols.append(dict(key='abi/build.rs/cmake-branch-real-size-differs-from-binding', config=tag,
+                                      msg='with the cmake feature build.rs passes LIBA_REAL=%s for the %s binding (real is %d bytes there)' % (brs['cmake'][real == 4], tag, real)))
+            one_width(real, tag, outdir, ctx, viols, stats, samples, tier, seed, creal=creal)
     except ctx['Inconclusive'] as e:
         inconclusive.append(str(e)[:3000])
     for pbm in stats['twin_problems']:
